@@ -105,6 +105,10 @@ def r7_key_components(ctx, sites, rule="C26.R7"):
                 continue
             names = {w.id for w in ast.walk(core) if isinstance(w, ast.Name)} & params
             fnames = {(dotted(w.func) or "").split(".")[-1] for w in ast.walk(core) if isinstance(w, ast.Call)}
+            if isinstance(core, ast.Call) and (dotted(core.func) or "").split(".")[-1] in ("hash", "sum", "crc32", "adler32") and names:
+                rep.bad(rule, C, s.fn.name, f"the key is the digest `{src[:60]}` of the arguments: digests collide (CPython: hash(-1.0) == hash(-2.0) == -2, and a tuple's hash depends only on its "
+                        "entries' hashes), and a key collision is served as a cache hit - two configurations that differ in one such entry share an entry", f"{s.rel}:{s.fn.lineno}")
+                continue
             rounding = fnames & {"round", "rint", "floor", "ceil", "int", "around", "trunc", "round_"} or any(
                 isinstance(w, ast.Call) and isinstance(w.func, ast.Attribute) and w.func.attr == "astype" for w in ast.walk(core))
             normalising = isinstance(core, ast.BinOp) and isinstance(core.op, ast.Div) and isinstance(core.right, ast.Call) \
@@ -147,10 +151,10 @@ def find_sites(ctx):
                     for k in d.keywords:
                         if k.arg == "key" and isinstance(k.value, ast.Lambda):
                             keyl = k.value
-                        elif k.arg == "key" and isinstance(k.value, ast.Name) and k.value.id in ci.methods:
-                            # key given by a named function of the class: read it like a lambda whose body is the returned expression,
-                            # locals inlined (p = q[3:]; return hashkey(*(p / norm(p))))
-                            kf = ci.methods[k.value.id]
+                        elif k.arg == "key" and isinstance(k.value, ast.Name) and (k.value.id in ci.methods or isinstance(ctx.repo.module(ci.rel).defs().get(k.value.id), ast.FunctionDef)):
+                            # key given by a named function of the class (or of the module): read it like a lambda whose body is the returned
+                            # expression, locals inlined (p = q[3:]; return hashkey(*(p / norm(p))))
+                            kf = ci.methods.get(k.value.id) or ctx.repo.module(ci.rel).defs()[k.value.id]
                             rets_ = [r for r in ast.walk(kf) if isinstance(r, ast.Return) and r.value is not None]
                             if len(rets_) == 1:
                                 keyl = ast.Lambda(args=kf.args, body=_inline_locals(kf, rets_[0].value))
@@ -700,4 +704,9 @@ MUTANTS += [
 ]
 NEUTRAL += [
     dict(id="c26-n-r6v", canary=True, what="memoised RigidBody.v_P gets a centre-of-mass fast path returning a copy", file='cardillo/discrete/rigid_body.py', old='    def v_P(self, t, q, u, xi=None, B_r_CP=np.zeros(3, dtype=float)):\n        return u[:3] + self.A_IB(t, q) @ cross3(u[3:], B_r_CP)\n', new='    def v_P(self, t, q, u, xi=None, B_r_CP=np.zeros(3, dtype=float)):\n        if not np.any(B_r_CP):\n            return u[:3].copy()\n        return u[:3] + self.A_IB(t, q) @ cross3(u[3:], B_r_CP)\n'),
+]
+
+MUTANTS += [
+    dict(id="c26-r7-digest", canary=True, every=True, what="[seeded by sub-agent] the rod kernels' key lambdas fold the element coordinates into one integer: hash((*qe, xi))", file='cardillo/rods/cosseratRod.py',
+         old='            key=lambda self, qe, xi, N, N_xi: hashkey(*qe, xi),\n', new="            key=lambda self, qe, xi, N, N_xi: hash((*qe, xi)),\n", expect="C26.R7"),
 ]
